@@ -183,6 +183,69 @@ def main():
         rep["samples"] = ["KmerGenerator('ACNug', 2) vs core", "MinimiserGenerator('CCCCA', 4, 2) vs core",
                           "CgrComputer(16).vectorise_one('ACNG') must raise ValueError (core: Err)",
                           "KmerGenerator('Aéc', 1): non-ASCII bytes act as ambiguous"]
+    elif mode == "pythreads":
+        # one computer object shared by several Python threads, each issuing batch calls (one of them batches that must
+        # be refused): every valid batch still equals the per-sequence results, every refused one still raises.
+        # Free-running repetition (the interleaving of Python threads cannot be controlled from here).
+        import threading
+        x = 777
+        pool = []
+        for i in range(3000):
+            x = (x * 6364136223846793005 + 1442695040888963407) % (1 << 64)
+            ln = 20 + (x >> 40) % 400
+            t = []
+            for j in range(ln):
+                x = (x * 6364136223846793005 + 1442695040888963407) % (1 << 64)
+                t.append("ACGT"[(x >> 33) % 4])
+            pool.append("".join(t))
+        cg = pk.CgrComputer(16)
+        oc = pk.OligoComputer(3)
+        exp_cg = [cg.vectorise_one(q) for q in pool]
+        exp_oc = [oc.vectorise_one(q, True) for q in pool]
+        bad_batch = pool[:40] + ["ACGTNACGT"] + pool[40:200]
+        problems = []
+        rounds = 12
+
+        def valid_cgr():
+            for r in range(rounds):
+                try:
+                    got = cg.vectorise_batch(list(pool))
+                except BaseException as e:  # noqa
+                    problems.append(("cgr-batch-shared", "round %d: a valid batch raised %s: %s" % (r, type(e).__name__, e)))
+                    return
+                wrong = [i for i in range(len(pool)) if got[i] != exp_cg[i]] if len(got) == len(pool) else None
+                if wrong is None or wrong:
+                    problems.append(("cgr-batch-shared", "round %d: a valid batch of %d sequences on a computer used by another thread: %s" % (
+                        r, len(pool), "%d rows" % len(got) if wrong is None else "%d rows differ from vectorise_one (first: row %d, %d points for %d bases)" % (len(wrong), wrong[0], len(got[wrong[0]]), len(pool[wrong[0]])))))
+                    return
+
+        def refused_cgr():
+            for r in range(rounds * 6):
+                try:
+                    cg.vectorise_batch(list(bad_batch))
+                    problems.append(("cgr-batch-shared", "round %d: a batch with a bad nucleotide returned coordinates" % r))
+                    return
+                except ValueError:
+                    pass
+
+        def valid_oligo():
+            for r in range(rounds):
+                got = oc.vectorise_batch(list(pool), True)
+                if got != exp_oc:
+                    problems.append(("oligo-batch-shared", "round %d: a batch on a shared OligoComputer differs from the per-sequence results" % r))
+                    return
+
+        ths = [threading.Thread(target=f) for f in (valid_cgr, refused_cgr, valid_oligo, valid_cgr)]
+        for t in ths:
+            t.start()
+        for t in ths:
+            t.join()
+        rep["evaluations"] += rounds * 3 + rounds * 6
+        rep["nontrivial"] += rounds * 3 + rounds * 6
+        for key, msg in problems[:5]:
+            viol(key, 5, msg)
+        count("shared_object_thread_rounds", rounds)
+        rep["samples"] = ["two Python threads share one CgrComputer: one issues valid batches, the other batches that are refused"]
     elif mode in ("bigbatch", "hugebatch"):
         # the TOTAL size of one batch is an input dimension of its own: batches whose sequences add up to more than
         # 2^28 (bigbatch) and 2^32 (hugebatch) bases, in three shapes (many small, some medium, few large records);
